@@ -1178,5 +1178,14 @@ func init() {
 		}
 		c09RunChild(c, "cold", limit, "16 goroutines, first use of fresh patterns on a cold regexp cache")
 		c09RunChild(c, "poison", limit, "panicking calls followed by valid calls under a watchdog")
+		// the same two phases under the race detector (a data race is reported even when this
+		// run's interleaving did not corrupt anything)
+		if dir, err := os.MkdirTemp("", "verif-c09-race-"); err == nil {
+			if exe := c09RaceBinary(c, dir); exe != "" {
+				c09RunChildExe(c, exe, "cold", "cold-race", false, limit, "the cold phase in a binary built with go1.26.8 -race")
+				c09RunChildExe(c, exe, "poison", "poison-race", false, limit, "the poison phase in a binary built with go1.26.8 -race")
+			}
+			os.RemoveAll(dir)
+		}
 	})
 }
